@@ -178,6 +178,9 @@ func genC09(c *Ctx) {
 		s.progs = append(s.progs, &c09Prog{kind: "tlb", pkg: fmt.Sprintf("tlb%d", i), text: sc.text(), tlb: sc,
 			descs: map[string][2]string{}, opaque: map[string]string{}, refines: map[string]bool{}, parts: map[string]string{}})
 	}
+	fo := genTlbForms()
+	s.progs = append(s.progs, &c09Prog{kind: "tlb", pkg: "tlbforms", text: fo.text(), tlb: fo,
+		descs: map[string][2]string{}, opaque: map[string]string{}, refines: map[string]bool{}, parts: map[string]string{}})
 	pr := genTlbPrims()
 	s.progs = append(s.progs, &c09Prog{kind: "tlb", pkg: "tlbprims", text: pr.text(), tlb: pr,
 		descs: map[string][2]string{}, opaque: map[string]string{}, refines: map[string]bool{}, parts: map[string]string{}})
@@ -398,6 +401,14 @@ func c09TlbClass(d *bD) string {
 	has := map[string]bool{}
 	var walk func(t *bT)
 	walk = func(t *bT) {
+		if t == nil {
+			return
+		}
+		for _, f := range t.fields {
+			if f.unnamed {
+				has["unnamed"] = true
+			}
+		}
 		switch t.k {
 		case "uint", "int", "nn":
 			if t.n > 64 {
@@ -422,11 +433,17 @@ func c09TlbClass(d *bD) string {
 	}
 	for i := range d.ctors {
 		for _, f := range d.ctors[i].fields {
+			if f.unnamed {
+				has["unnamed"] = true
+			}
+			if f.implicit != "" {
+				has["implicit"] = true
+			}
 			walk(f.t)
 		}
 	}
 	var ks []string
-	for _, k := range []string{"maybe", "mayberef", "either", "eitherref", "ref", "refanon", "dict", "var", "bits", "cell", "nested"} {
+	for _, k := range []string{"unnamed", "implicit", "anon", "maybe", "mayberef", "either", "eitherref", "ref", "refanon", "dict", "var", "bits", "cell", "nested"} {
 		if has[k] {
 			ks = append(ks, k)
 		}
